@@ -322,15 +322,23 @@ def run(ctx):
     ctx.extra["events_by_kind_both_paths"] = kinds
     if len(traces) == 2:
         a, b = traces["portable"], traces["avx2"]
-        diffs = []
+        keys = ("e", "inp", "len", "out", "cps", "r", "n", "fn")       # what the property compares: verdict + reported bytes
+        diffs, scratch = [], 0
         for x, y in zip(a, b):
             if x.get("e") == "Reset":
                 continue
-            if x != y:
+            # reported bytes only exist for a successful call: after a refusal out is the caller's old content, which a
+            # store-from-0 decoder may already have overwritten (scratch, counted separately below)
+            px = [x.get(k) for k in keys if k != "out" or x.get("rc", 0) == 0] + [x.get("rc", 0) == 0]
+            py = [y.get(k) for k in keys if k != "out" or y.get("rc", 0) == 0] + [y.get("rc", 0) == 0]
+            if px != py:
                 diffs.append({"portable": {k: x.get(k) for k in ("e", "inp", "rc", "len", "out", "wrote")},
                               "avx2": {k: y.get(k) for k in ("e", "inp", "rc", "len", "out", "wrote")}})
+            elif x.get("wrote") != y.get("wrote") or x.get("out") != y.get("out"):
+                scratch += 1       # same verdict and bytes, different extent of (unreported) scratch writes
         ctx.extra["path_comparison"] = {"events_compared": min(len(a), len(b)), "same_length": len(a) == len(b),
-                                        "differing_events": len(diffs), "examples": diffs[:6]}
+                                        "differing_verdict_or_bytes": len(diffs), "examples": diffs[:6],
+                                        "same_result_different_scratch_writes": scratch}
     # known findings that fired (only inputs matching the record's structural signature reach this point)
     for nm in sorted(fired):
         rec = devs.get(nm, {})
